@@ -241,6 +241,21 @@ pub fn items(tier: Tier, id: &str) -> Vec<Item> {
             }
         }
     }
+    if id == "C09" || id == "C03" {
+        // every kernel a caller can select explicitly (new_with_interpolator), not only the one
+        // the run-time dispatch picks on this machine
+        let mut cfgs = Vec::new();
+        for kind in [Kind::SI, Kind::SO] {
+            for kernel in [Kernel::Scalar, Kernel::Sse, Kernel::Avx] {
+                for (os, interp) in [(2usize, Interp::Cubic), (4, Interp::Linear), (2, Interp::Nearest)] {
+                    cfgs.push(Cfg::sinc(kind, 0.8, 2.0, 8, 8, os, interp, kernel).with_channels(2));
+                }
+            }
+        }
+        for c in cfgs.chunks(3) {
+            out.push(Item { cfgs: c.to_vec(), f32_too: true });
+        }
+    }
     if id == "C17" {
         // long filters with oversampling factors that are not powers of two (160 is the
         // ratio-matched choice for 44.1 -> 48 kHz): table positions x/factor are not exact in
